@@ -76,6 +76,18 @@ def grammar_recheck(tag: Optional[str]) -> tuple[bool, str]:
     return False, f"unknown re-check {tag}"
 
 
+def raised_class(prog: Prog, fn: Fn, r: ast.Raise):
+    """("class", qual) of what a raise statement raises, looking through a local that holds the exception built earlier."""
+    exc = r.exc
+    if exc is None:
+        return (None, None)
+    if isinstance(exc, ast.Name) and prog.local_defs(fn, exc.id):
+        built = [v for v in prog.value_sources(fn, exc) if isinstance(v, ast.Call)]
+        if len(built) == 1:
+            exc = built[0]
+    return prog.resolve_expr(exc.func if isinstance(exc, ast.Call) else exc, fn.mod, fn)
+
+
 def rules(ctx: Ctx) -> None:
     prog = ctx.prog
     base_exc = prog.try_cls("exceptions.SQLLineageException")
@@ -152,7 +164,7 @@ def rules(ctx: Ctx) -> None:
         ctx.touched(lister)
         lname = f"{lister.cls.name}.{lister.name}" if lister.cls else lister.name
         lcfg = flow(prog, lister).cfg
-        raises = [c for c in lcfg.nodes.values() if c.kind == "stmt" and isinstance(c.ast, ast.Raise) and c.ast.exc is not None and prog.resolve_expr(c.ast.exc.func if isinstance(c.ast.exc, ast.Call) else c.ast.exc, lister.mod, lister) == ("class", inv.qual)]
+        raises = [c for c in lcfg.nodes.values() if c.kind == "stmt" and isinstance(c.ast, ast.Raise) and c.ast.exc is not None and tuple(raised_class(prog, lister, c.ast))[:2] == ("class", inv.qual)]
         raises = [r for r in raises if any("violation" in t and p for t, p in lcfg.facts_at(r.id))]
         ctx.ob("R10.2", "violations-raise-invalid-syntax", len(raises) == 1, lister.loc(), f"{lname} raises InvalidSyntaxException when the parse recorded violations")
         # the filter keeps both lexing and parsing errors
@@ -166,28 +178,45 @@ def rules(ctx: Ctx) -> None:
         if raises:
             r = raises[0]
             facts = lcfg.facts_at(r.id)
-            vio = [(t, p) for t, p in facts if "violation" in t]
-            other = [(t, p) for t, p in facts if "violation" not in t and "tsql_split_cache" not in t]
+            # a condition is about the violations when what it tests is computed from them (whatever the local is called)
+            def _about_violations(t: str) -> bool:
+                if "violation" in t:
+                    return True
+                try:
+                    e_ = ast.parse(t, mode="eval").body
+                except SyntaxError:
+                    return False
+                return any(isinstance(k_, ast.Attribute) and k_.attr == "violations" for x in ast.walk(e_) if isinstance(x, ast.Name) for k_ in prog.influences(lister, x))
+
+            vio = [(t, p) for t, p in facts if _about_violations(t)]
+            other = [(t, p) for t, p in facts if not _about_violations(t) and "tsql_split_cache" not in t]
             ctx.ob("R10.2", "raise-iff-violations", bool(vio) and len(vio) <= 2 and not other, f"{lister.mod.path}:{r.lineno}",
                    f"{lname}: the raise is conditioned on the presence of violations only" + (f" (also on `{other[0][0]}`)" if other else ""))
             tree_uses = [c for c in lcfg.nodes.values() if c.ast is not None and c.kind in ("stmt", "cond", "for") and any(isinstance(k, ast.Attribute) and k.attr == "tree" for k in ast.walk(c.ast.iter if c.kind == "for" else c.ast))]
             cond = next((c for c in lcfg.nodes.values() if c.kind == "cond" and lcfg.reach(c.id, r.id) and "violation" in u(c.ast)), None)
             ok = bool(tree_uses) and cond is not None and all(lcfg.dominates(cond.id, t.id) for t in tree_uses)
             ctx.ob("R10.2", "violations-check-dominates-tree-access", ok, lister.loc(), f"{lname}: every access to parsed.tree is dominated by the violations test")
-            np_ifs = [k for k in prog.walk_fn(lister) if isinstance(k, ast.If) and "parsed_variants" in u(k.test)]
-            none_parsed = [lcfg.node_for(k) for k in np_ifs]
-            ok_np = bool(none_parsed) and cond is not None and any(c is not None and lcfg.dominates(c, cond.id) for c in none_parsed)
-            # ... and when nothing was parsed the report cannot come out empty (sqlfluff may have skipped the text without a violation)
-            def _never_empty(k: ast.If) -> bool:
-                for st_ in k.body:
-                    if isinstance(st_, ast.Raise):
-                        return True
-                    if isinstance(st_, ast.Assign) and isinstance(st_.value, ast.BoolOp) and isinstance(st_.value.op, ast.Or) and isinstance(st_.value.values[-1], (ast.List, ast.Tuple)) and st_.value.values[-1].elts:
-                        return True
-                    if isinstance(st_, ast.Assign) and isinstance(st_.value, (ast.List, ast.Tuple)) and st_.value.elts:
-                        return True
-                return False
-            ok_np = ok_np and any(_never_empty(k) for k in np_ifs)
+            # when nothing was parsed at all the report cannot come out empty (sqlfluff may have skipped the text without recording a
+            # violation): on the paths where `parsed_variants` is falsy, what the raise condition tests is either raised on directly or given a
+            # value that is never empty (`x or [<literal>]`, a non-empty literal), and that value is what the condition looks at
+            from ..cfg import controlling_facts as _cf3
+
+            def _nonempty_value(v: ast.AST) -> bool:
+                if isinstance(v, ast.BoolOp) and isinstance(v.op, ast.Or):
+                    return _nonempty_value(v.values[-1])
+                return isinstance(v, (ast.List, ast.Tuple)) and bool(v.elts)
+
+            fl_l = flow(prog, lister)
+            ok_np = False
+            cond_names = {x.id for a_ in controlling_atoms(prog.parents, r.ast) for x in prog.influences(lister, a_) if isinstance(x, ast.Name)}
+            for st_ in prog.walk_fn(lister):
+                facts_ = None
+                if isinstance(st_, ast.Assign) and _nonempty_value(st_.value) and any(isinstance(t_, ast.Name) and t_.id in cond_names for t_ in st_.targets):
+                    facts_ = set(fl_l.facts_for(st_)) | set(_cf3(prog.parents, st_))
+                elif isinstance(st_, ast.Raise) and st_.exc is not None and tuple(raised_class(prog, lister, st_))[:2] == ("class", inv.qual):
+                    facts_ = set(fl_l.facts_for(st_)) | set(_cf3(prog.parents, st_))
+                if facts_ is not None and any("parsed_variants" in t_ and ((not p_ and not t_.startswith("not ")) or (p_ and t_.startswith("not "))) for t_, p_ in facts_):
+                    ok_np = True
             ctx.ob("R10.2", "nothing-parsed-is-invalid-syntax", ok_np, lister.loc(),
                    f"{lname}: when no variant was parsed at all (templater failure) the violations are reported as invalid syntax before `.tree` (which asserts) is touched")
     # no other routine reads the tree of a parse result
@@ -284,8 +313,8 @@ def rules(ctx: Ctx) -> None:
                 for a in prog.ancestors(n):
                     if isinstance(a, ast.Try) and any(n is x for b in a.body for x in ast.walk(b)):
                         for h in a.handlers:
-                            converts = any(isinstance(k, ast.Raise) and k.exc is not None and prog.resolve_expr(k.exc.func if isinstance(k.exc, ast.Call) else k.exc, f.mod, f)[0] == "class"
-                                           and prog.is_subclass(prog.classes[prog.resolve_expr(k.exc.func if isinstance(k.exc, ast.Call) else k.exc, f.mod, f)[1]], base_exc) for b in h.body for k in ast.walk(b))
+                            converts = any(isinstance(k, ast.Raise) and k.exc is not None and raised_class(prog, f, k)[0] == "class"
+                                           and prog.is_subclass(prog.classes[raised_class(prog, f, k)[1]], base_exc) for b in h.body for k in ast.walk(b))
                             # the third-party parser fails in many ways on adversarial text (RuntimeError at the recursion limit, AssertionError /
                             # KeyError / ValueError inside the templater and inline-directive handling): only a handler for Exception is a boundary
                             if converts and (h.type is None or u(h.type) in ("Exception", "BaseException")):
@@ -332,7 +361,7 @@ def rules(ctx: Ctx) -> None:
         ctx.ob("R10.5", "silent-skip-unconditional", not foreign, f"{analyze.mod.path}:{c.lineno}", "the skip depends on silent mode only" + (f" (also on `{foreign[0]}`)" if foreign else ""))
     # the non-silent alternative raises UnsupportedStatementException
     uns = prog.cls("exceptions.UnsupportedStatementException")
-    r_uns = [c for c in acfg.nodes.values() if c.kind == "stmt" and isinstance(c.ast, ast.Raise) and c.ast.exc is not None and prog.resolve_expr(c.ast.exc.func if isinstance(c.ast.exc, ast.Call) else c.ast.exc, analyze.mod, analyze) == ("class", uns.qual)]
+    r_uns = [c for c in acfg.nodes.values() if c.kind == "stmt" and isinstance(c.ast, ast.Raise) and c.ast.exc is not None and tuple(raised_class(prog, analyze, c.ast))[:2] == ("class", uns.qual)]
     ctx.ob("R10.5", "unsupported-raises-outside-silent-mode", any(any("silent" in t and not p for t, p in acfg.facts_at(c.id)) for c in r_uns), analyze.loc(),
            "outside silent mode an unsupported statement type raises UnsupportedStatementException")
     # multi-write guard (named by the property's anchors)
